@@ -22,11 +22,15 @@
 (*                 validate the real binary to this machine)                 *)
 (*   PipeCorrect   the report satisfies Correct - the PROPERTY.  Violated by  *)
 (*                 the code as it is (D9, D13); holds with FIXRA and FIXCR.   *)
-(*   PipeCorrectOrKnown  ... or the scenario is in a known class             *)
+(*   PipeCorrectOrKnown  ... or the scenario is in a known class (D9: the    *)
+(*                 offending position was discarded with the read-ahead;     *)
+(*                 D13: a lone CR lies in the discarded prefix)              *)
+(*   PipeSignature / FileSignature   outside the D9 class a wrong report has *)
+(*                 exactly the observable signature of D13                   *)
 (*   FileCorrect / FileCorrectOrKnown   same for getContents on a seekable   *)
 (*                 input (a function of the text: checked in every initial   *)
 (*                 state)                                                    *)
-(*   LemmaInv      ReportAtLemma on the run-length encoded texts of TextsRLE  *)
+(* (ReportAtLemma on run-length encoded texts: ErrPosLemma.tla)              *)
 (***************************************************************************)
 EXTENDS ErrPos, TLC
 
@@ -171,7 +175,7 @@ PipeCorrect == pc = "done" => Correct(TT, ErrOf(S), Obs)
 PipeCorrectOrKnown == pc = "done" => (Correct(TT, ErrOf(S), Obs) \/ InDiscarded(CurView, ErrOf(S), N) \/ LoneCRSkipped(TT, CurView))
 \* outside the discarded-read-ahead class a wrong report has exactly the observable signature of D13
 PipeSignature == pc = "done" => (Correct(TT, ErrOf(S), Obs) \/ InDiscarded(CurView, ErrOf(S), N) \/ D13Signature(TT, ErrOf(S), Obs))
-\* the known classes are not excuses: inside them the code really is wrong somewhere (checked as "not always correct" by the d9 config)
+\* (that the code really is wrong inside these classes is what the _d9 / _d13 configurations show: TLC must find the violation)
 
 FileObs == LET r == ReportOfView(TT, ViewFile(TT, ErrOf(S))) IN [line |-> r.line, ex |-> r.ex, col |-> r.col]
 FileCorrect == Correct(TT, ErrOf(S), FileObs)
